@@ -22,7 +22,8 @@ THEOREMS = [
     "sw_le_twice_dominating_cost", "sw_le_2W1_partial", "sw_le_twice_W1_l1",
 ]
 RULE = ("seeded generator over classes {generic, neg (negative coordinates), mixed (b+d of both signs), reorder, near, "
-        "diag (diagonal points mixed in), scale (x 2^-10..2^20), empty, one_empty, single, dyadic (small dyadic grid), repaired} x "
+        "diag (diagonal points mixed in), scale (x 2^-10..2^20), empty, one_empty, single, dyadic (small dyadic grid), repaired, "
+        "multi (bit-identical shared points with different multiplicities), intdtype (int32/int64 arrays, compared with float64)} x "
         "M in {1,2,5,50,49,98,103,107} + 4 values drawn from 1..130 per run; 0-5 points per diagram; repaired = same births, same deaths, different pairing; every case also carries a third diagram, a shift (often into "
         "negative coordinates), a scale factor, a permutation and diagonal points for the metamorphic relations. "
         "Non-trivial: both diagrams non-empty, not reorderings of each other, and the value is > 0; distinct = distinct JSON input")
@@ -123,17 +124,40 @@ def _case(rng, cls, Ms):
                 x = rng.choice([0.0, 1.5, rng.uniform(-3, 3)])
                 X.insert(rng.randint(0, len(X)), [x, x])
     H = _dgm(rng, rng.randint(0, 4), kind, sc)
+    xs = [rng.uniform(-3, 4) * sc for _ in range(rng.randint(1, 3))]
+    shift = rng.choice([10.0, -10.0, -3.0, rng.uniform(-50, 50), -1000.0]) * sc
+    factor = rng.choice([2.0, 0.5, 3.0, rng.uniform(0.1, 10), 1024.0])
+    dtype = "float64"
+    if cls == "multi":
+        # bit-identical shared points with DIFFERENT multiplicities in the two diagrams (SW({p,p},{p}) > 0)
+        p = _pt(rng, kind)
+        k1, k2 = rng.choice([(2, 1), (1, 2), (3, 1), (2, 3), (3, 2), (2, 0)])
+        F = [list(p) for _ in range(k1)] + (_dgm(rng, rng.randint(0, 2), kind) if rng.random() < 0.5 else [])
+        G = [list(p) for _ in range(k2)]
+        if rng.random() < 0.4:          # further shared points with equal multiplicity
+            q = _pt(rng, kind)
+            F.append(list(q)); G.append(list(q))
+        rng.shuffle(F); rng.shuffle(G)
+    elif cls == "intdtype":
+        # integer-dtype arrays (int32 / int64): the value must be that of the same points as float64;
+        # b + d is odd for most points, so the diagonal image (b+d)/2 is not an integer
+        dtype = rng.choice(["int32", "int64"])
+        lo = rng.choice([0, -6, -40])
+        ipt = lambda: (lambda b: [float(b), float(b + rng.choice([1, 1, 3, 2, 5]))])(rng.randint(lo, lo + 8))
+        F = [ipt() for _ in range(rng.randint(1, 4))]
+        G = [ipt() for _ in range(rng.randint(0, 4))]
+        H = [ipt() for _ in range(rng.randint(0, 3))]
+        xs = [float(rng.randint(lo, lo + 8)) for _ in range(rng.randint(1, 2))]
+        shift = float(rng.choice([10, -10, -3, -1000, 7]))
+        factor = float(rng.choice([2, 3, 1024]))
     perm = list(range(len(F)))
     rng.shuffle(perm)
-    xs = [rng.uniform(-3, 4) * sc for _ in range(rng.randint(1, 3))]
-    return {"cls": cls, "F": F, "G": G, "H": H, "M": rng.choice(Ms), "perm": perm,
-            "shift": rng.choice([10.0, -10.0, -3.0, rng.uniform(-50, 50), -1000.0]) * sc,
-            "factor": rng.choice([2.0, 0.5, 3.0, rng.uniform(0.1, 10), 1024.0]),
-            "diag": [[x, x] for x in xs], "diag_pos": [rng.random() for _ in xs]}
+    return {"cls": cls, "F": F, "G": G, "H": H, "M": rng.choice(Ms), "perm": perm, "shift": shift, "factor": factor,
+            "diag": [[x, x] for x in xs], "diag_pos": [rng.random() for _ in xs], "dtype": dtype}
 
 
 CLASSES = ["generic", "generic", "neg", "mixed", "mixed", "reorder", "near", "diag", "scale", "empty",
-           "one_empty", "single", "dyadic", "dyadic", "repaired", "repaired"]
+           "one_empty", "single", "dyadic", "dyadic", "repaired", "repaired", "multi", "multi", "intdtype", "intdtype"]
 
 
 def generate(rng, tier):
@@ -159,7 +183,7 @@ def corpus():
     if d.is_dir():
         for f in sorted(d.glob("*.json")):
             j = json.loads(f.read_text())
-            cs.append({k: j[k] for k in ("F", "G", "H", "M", "perm", "shift", "factor", "diag", "diag_pos")})
+            cs.append({k: j[k] for k in ("F", "G", "H", "M", "perm", "shift", "factor", "diag", "diag_pos", "dtype") if k in j})
     return cs
 
 
@@ -184,9 +208,6 @@ def impl_run(cases):
     except Exception:  # pragma: no cover
         wasserstein = None
 
-    def arr(X):
-        return np.array(X, dtype=float).reshape(-1, 2)
-
     def f(x):
         x = float(x)
         return x if x == x and abs(x) != float("inf") else repr(x)
@@ -194,6 +215,10 @@ def impl_run(cases):
     for c in cases:
         def call():
             F, G, H, M = c["F"], c["G"], c["H"], c["M"]
+            dt = {"int32": np.int32, "int64": np.int64}.get(c.get("dtype", "float64"), float)
+
+            def arr(X):
+                return np.array(X, dtype=float).reshape(-1, 2).astype(dt)
             t, k = c["shift"], c["factor"]
             sh = lambda X: [[b + t, d + t] for b, d in X]
             scl = lambda X: [[b * k, d * k] for b, d in X]
@@ -206,8 +231,11 @@ def impl_run(cases):
                  "sc": f(sliced_wasserstein(arr(scl(F)), arr(scl(G)), M=M)),
                  "FH": f(sliced_wasserstein(arr(F), arr(H), M=M)),
                  "HG": f(sliced_wasserstein(arr(H), arr(G), M=M))}
+            if dt is not float:
+                o["vf"] = f(sliced_wasserstein(np.array(F, dtype=float).reshape(-1, 2),
+                                               np.array(G, dtype=float).reshape(-1, 2), M=M))
             try:
-                o["w1"] = f(wasserstein(arr(F), arr(G))) if wasserstein else None
+                o["w1"] = f(wasserstein(np.array(F, dtype=float).reshape(-1, 2), np.array(G, dtype=float).reshape(-1, 2))) if wasserstein else None
             except Exception:
                 o["w1"] = None
             return o
@@ -283,6 +311,8 @@ def predicate(c, o):
     ref = _spec(F, G, M)
     if abs(o["v"] - ref) > tol:
         return False, "value: %r differs from the averaged 1-D transport cost %r (tolerance %.3g)" % (o["v"], ref, tol)
+    if "vf" in o and (not _num(o["vf"]) or abs(o["vf"] - o["v"]) > 2 * tol):
+        return False, "dtype: %s arrays give %r, the same points as float64 give %r" % (c.get("dtype"), o["v"], o["vf"])
     if abs(o["sym"] - o["v"]) > 2 * tol:
         return False, "symmetry: sw(G,F) = %r, sw(F,G) = %r" % (o["sym"], o["v"])
     if o["perm"] > _tol(F, F):
